@@ -81,6 +81,11 @@ def generate(tier, rng):
                 for l in adims:
                     if vk == 0:
                         cases.append(dict(base, op=dict(kind="cumsum", letter=l)))
+                        # running totals of counts held in a narrow type (a mask, small counts): they outgrow the type of the entries
+                        for dt_, vv in (("bool", [(i % 3 != 1) * 1 for i in range(n)]), ("uint8", [100 + (7 * i) % 90 for i in range(n)])):
+                            for ip in (False, True):
+                                cases.append(dict(stream="exact", coq=False, uni=uni, arr=dict(arr, values=vv, dtype=dt_),
+                                                  op=dict(kind="cumsum", letter=l, inplace=ip)))
                 # malformed
                 if vk == 0:
                     other = [l for l in L if l not in adims]
@@ -151,6 +156,10 @@ def run_impl(case):
         f = (lambda: a.get_shares_over(dim_letters=ls)) if st % 2 else (lambda: a.get_shares_over(ls))
     elif k == "cumsum":
         f = (lambda: a.cumsum(dim_letter=op["letter"])) if st % 2 else (lambda: a.cumsum(op["letter"]))
+        if op.get("inplace"):
+            def f():
+                a.cumsum(op["letter"], inplace=True)
+                return a
     o = observe(f)
     if o["kind"] == "ok":
         o["value"] = observe_array(o["value"], snap=(k == "shares"))
